@@ -3,7 +3,7 @@ design assembly, value concretisation, the generate/build/run pipeline on real g
 and the projection of what the runner recorded onto the observables of HTTPTransport.tla.
 No goa logic lives here: designs are lists of DSL facts, values are deterministic renderings of
 value classes, projections only look things up by name."""
-import base64, json, os, shutil, subprocess, concurrent.futures as cf
+import base64, hashlib, json, os, shutil, subprocess, concurrent.futures as cf
 from . import core
 
 LO, HI = 2, 5
@@ -351,8 +351,8 @@ def empty(x):
 ELEM = {"query": lambda n: "q" + n, "header": lambda n: "X-H" + n, "cookie": lambda n: "c" + n}
 
 
-def method_design(idx, shape, types):
-    """One goa method for a (pa, ra, tagged) shape."""
+def method_design(idx, shape, types, extra=None):
+    """One goa method for a (pa, ra, tagged) shape (extra: list that receives sibling methods)."""
     mname = "m%d" % idx
     pa, ra = shape["pa"], shape["ra"]
     pattrs, rattrs = [], []
@@ -406,9 +406,10 @@ def method_design(idx, shape, types):
         responses = [tagged, resp]
     http["responses"] = responses
     m = {"name": mname, "http": http}
-    # every other method with several attributes declares its payload / result as a NAMED user type (Payload(T)) instead
+    # half of the methods with several attributes declare its payload / result as a NAMED user type (Payload(T)) instead
     # of an inline object: the transport then derives its body types from a type that also exists on its own
-    named = idx % 2 == 0
+    # (decided by the shape, not by its position: the same method re-run in a design of its own must be the same method)
+    named = hashlib.sha1(shape_key(shape).encode()).digest()[0] % 2 == 0
     if pwhole:
         m["payload"] = {"type": whole_tref(pa[0])}
     elif pattrs and named and len(pattrs) >= 2:
@@ -423,7 +424,31 @@ def method_design(idx, shape, types):
         m["result"] = {"type": {"kind": "user", "ref": "M%dRes" % idx}}
     elif rattrs:
         m["result"] = {"attrs": rattrs}
+    # ... and such a type is also used WHOLE as the body of a sibling method (never called): the method's own body types
+    # are then a second shape of a type the documents already know
+    if extra is not None and any("type" in m.get(k, {}) and m[k]["type"].get("kind") == "user" for k in ("payload", "result")) and not (pwhole or rwhole):
+        sib = {"name": mname + "w", "http": {"routes": [{"verb": "POST", "path": "/" + mname + "w"}], "params": {}, "headers": {}, "cookies": {},
+                                              "responses": [{"status": 200, "headers": {}, "cookies": {}}]}}
+        for k in ("payload", "result"):
+            if "type" in m.get(k, {}) and m[k]["type"].get("kind") == "user":
+                sib[k] = m[k]
+        extra.append(sib)
     return m
+
+
+def used_types(design):
+    """the user types of a design its services reach, directly or through other types (declaration order kept)"""
+    types = design.get("types", [])
+    text = json.dumps(design["services"])
+    keep, grew = set(), True
+    while grew:
+        grew = False
+        for t in types:
+            if t["name"] not in keep and '"ref": "%s"' % t["name"] in text:
+                keep.add(t["name"])
+                text += json.dumps(t)
+                grew = True
+    return [t for t in types if t["name"] in keep]
 
 
 def shape_key(v):
@@ -462,7 +487,10 @@ def pack_designs(shapes, per_design=40, apart=None):
         types, methods = [], []
         for off, si in enumerate(b[0]):
             idx = off + 1
-            methods.append(method_design(idx, shapes[si], types))
+            sibs = []
+            m = method_design(idx, shapes[si], types, sibs)
+            methods.extend(sibs)       # (before the method itself)
+            methods.append(m)
             where[si] = (len(designs), "s1", "M%d" % idx)
         designs.append({"api": {"name": "a%d" % (len(designs) + 1)}, "types": types, "services": [{"name": "s1", "methods": methods}]})
     return designs, where
@@ -549,9 +577,9 @@ class Pipeline:
                 if src[k].startswith("func "):
                     fn = src[k]
                     break
-            mm = re.search(r"M(\d+)(?=[A-Z_(]|\b)", fn.split("(", 2)[0] + "(" if fn else "")
+            mm = re.search(r"M(\d+)w?(?=[A-Z_(]|\b)", fn.split("(", 2)[0] + "(" if fn else "")
             if fn and not mm:
-                mm = re.search(r"M(\d+)(?=[A-Z_(]|\b)", fn)
+                mm = re.search(r"M(\d+)w?(?=[A-Z_(]|\b)", fn)
             if mm:
                 bad.setdefault("m" + mm.group(1), "%s: %s" % (m.group(1).split("/gen/")[1] + ":" + m.group(2), msg))
             else:
@@ -589,9 +617,8 @@ class Pipeline:
                 for mname, diag in bad.items():
                     self.bad_methods[(i, mname)] = diag
                 for svc in designs[i]["services"]:
-                    svc["methods"] = [m for m in svc["methods"] if m["name"] not in bad]
-                used = json.dumps(designs[i]["services"])
-                designs[i]["types"] = [t for t in designs[i].get("types", []) if '"ref": "%s"' % t["name"] in used]
+                    svc["methods"] = [m for m in svc["methods"] if m["name"] not in bad and m["name"].rstrip("w") not in bad]    # (with its sibling)
+                designs[i]["types"] = used_types(designs[i])
                 shutil.rmtree(os.path.join(self.root, "d%d" % i), ignore_errors=True)
                 if any(svc["methods"] for svc in designs[i]["services"]):
                     redo.append(i)
@@ -631,8 +658,7 @@ class Pipeline:
                 trial[0] += 1
                 sub = json.loads(json.dumps(d))
                 sub["services"][0]["methods"] = ms
-                used = json.dumps(ms)
-                sub["types"] = [t for t in d.get("types", []) if '"ref": "%s"' % t["name"] in used]
+                sub["types"] = used_types(sub)
                 tag = "%d_t%d" % (i, trial[0])
                 _, evs, _ = self._gen_one(tag, sub, cmds)
                 shutil.rmtree(os.path.join(self.root, "d" + tag), ignore_errors=True)
@@ -662,9 +688,8 @@ class Pipeline:
             for mname, det in culprits.items():
                 self.bad_methods[(i, mname)] = det
             svc = designs[i]["services"][0]
-            svc["methods"] = [m for m in svc["methods"] if m["name"] not in culprits]
-            used = json.dumps(designs[i]["services"])
-            designs[i]["types"] = [t for t in designs[i].get("types", []) if '"ref": "%s"' % t["name"] in used]
+            svc["methods"] = [m for m in svc["methods"] if m["name"] not in culprits and m["name"].rstrip("w") not in culprits]
+            designs[i]["types"] = used_types(designs[i])
             shutil.rmtree(os.path.join(self.root, "d%d" % i), ignore_errors=True)
             del self.failed[i]
             self.events.pop(i, None)
